@@ -58,6 +58,11 @@ def run(ctx) -> None:
     transp.check_connectives(ctx, "python", "CONN")
     _check_transpiler_complete(ctx, "python", "EXH3")
     transp.check_parentheses(ctx, "python", "PAREN")
+    transp.check_bare_kinds(ctx, "python", "PAREN")
+    # formatted strings: the literal parts of the Python f-string (shared with C09)
+    ctx.rule("JOINED", "python: literal parts of a formatted string are escaped for the f-string syntax, exactly once (shared with C09)", floor=2)
+    from . import c09 as _c09
+    _c09._check_joined_str(ctx, "python")
     for m in p.modules.values():
         if m.name.startswith("aas_core_codegen.python"):
             for f in m.functions.values():
